@@ -1,4 +1,4 @@
 #include "mvh.h"
-extern const mvh_class wl_forkjoin, wl_mutex, wl_cond, wl_barrier, wl_jc, wl_uncond, wl_felock, wl_once, wl_tls, wl_dtor, wl_timed, wl_initfini, wl_bulk, wl_taskgroup, wl_parfor;
-const mvh_class *const mvh_classes[] = { &wl_forkjoin, &wl_mutex, &wl_cond, &wl_barrier, &wl_jc, &wl_uncond, &wl_felock, &wl_once, &wl_tls, &wl_dtor, &wl_timed, &wl_initfini, &wl_bulk, &wl_taskgroup, &wl_parfor };
+extern const mvh_class wl_forkjoin, wl_mutex, wl_cond, wl_barrier, wl_jc, wl_uncond, wl_felock, wl_once, wl_tls, wl_dtor, wl_timed, wl_initfini, wl_bulk, wl_taskgroup, wl_parfor, wl_regs;
+const mvh_class *const mvh_classes[] = { &wl_forkjoin, &wl_mutex, &wl_cond, &wl_barrier, &wl_jc, &wl_uncond, &wl_felock, &wl_once, &wl_tls, &wl_dtor, &wl_timed, &wl_initfini, &wl_bulk, &wl_taskgroup, &wl_parfor, &wl_regs };
 const int mvh_n_classes = sizeof(mvh_classes) / sizeof(mvh_classes[0]);
